@@ -85,6 +85,16 @@ def check_cases(run, cases, st, distinct=None):
     for c, rr in zip(cases, res):
         stg = rr.get("stage") if rr else "none"
         st["stages"][stg] = st["stages"].get(stg, 0) + 1
+        if c.get("expect_stage") and stg != c["expect_stage"]:
+            # hand-made case with a stated outcome: e.g. an equity account name outside the journal grammar must be
+            # rejected by the configuration (the export written with it is not a journal: T02_eq_account_ok_insufficient)
+            rep = dict(C10.replay_obj(c))
+            rep.update({"expected_stage": c["expect_stage"], "observed_stage": stg, "error": (rr or {}).get("err"),
+                        "export_text": ((rr or {}).get("results") or [{}, {}])[1].get("ok") if stg == "done" else None})
+            run.violation("corpus case %s: expected the run to end at stage %r, it ended at %r (an equity account name the journal "
+                          "grammar cannot read must be rejected at start-up, otherwise the export is not a journal)"
+                          % (c.get("src"), c["expect_stage"], stg), rep, found_input=(stg == "done"))
+            continue
         if stg != "done":
             continue                      # rejected configuration (invalid equity account), load error ...: C10 / C15
         txns, eq, bal = rr["results"]
@@ -101,7 +111,7 @@ def check_cases(run, cases, st, distinct=None):
     ok, log = coq_make(["corr/T02_corr.vo"])
     if not ok:
         raise Infra("coq build of corr/T02_corr.vo failed:\n" + log[-3000:])
-    vals, errs = coq_eval("T02-" + run.prop, IMPORTS, terms)
+    vals, errs = coq_eval("T02-" + run.prop, IMPORTS, terms) if terms else ([], [])
     if errs:
         raise Infra("coq evaluation failed: " + errs[0])
     bad = []
